@@ -191,12 +191,48 @@ def mk_source(cfg):
     return None if s is None else em.Source(**s)
 
 
+def gseed(rng):
+    """seeds are boundary-heavy: 0 is a valid seed and must seed every stream"""
+    return rng.choice([0, 0, 1, rng.randint(0, 10 ** 6), rng.randint(0, 10 ** 6), rng.randint(0, 10 ** 6), rng.randint(0, 10 ** 6)])
+
+
+def _det_variant(d):
+    return (int(round(d["eff"] * 1000)) + int(round(d["pdark"] * 1000)) + int(bool(d["pc"]))) % 3
+
+
 def mk_detector(d):
+    if _det_variant(d) == 1:
+        # an ideal default detector re-configured through its setters must behave like one constructed with the values
+        det = em.Detector()
+        det.photon_counting = d["pc"]
+        det.p_dark = d["pdark"]
+        det.efficiency = d["eff"]
+        return det
     return em.Detector(efficiency=d["eff"], p_dark=d["pdark"], photon_counting=d["pc"])
+
+
+def _decoy(circ, inp):
+    """a default-constructed Sampler whose default Source/Detector are modified in place and which is then thrown
+    away: later default-constructed objects must still get their own perfect Source and Detector"""
+    try:
+        d0 = em.Sampler(circ, lw.State(list(inp)))
+        d0.source.brightness = 0.5
+        d0.detector.efficiency = 0.5
+        d0.detector.photon_counting = False
+    except Exception:  # noqa: BLE001
+        pass
 
 
 def mk_sampler(cfg, det=None):
     circ = mk_circuit(cfg)
+    _decoy(circ, cfg["input"])
+    if det is not None and _det_variant(det) == 2:
+        # the detector the Sampler creates itself, re-configured in place
+        s = em.Sampler(circ, lw.State(list(cfg["input"])), source=mk_source(cfg))
+        s.detector.efficiency = det["eff"]
+        s.detector.p_dark = det["pdark"]
+        s.detector.photon_counting = det["pc"]
+        return s
     return em.Sampler(circ, lw.State(list(cfg["input"])), source=mk_source(cfg),
                       detector=None if det is None else mk_detector(det))
 
@@ -443,7 +479,7 @@ def g_cfg(rng, tier, heralds=None, lossy=False, source=False, max_modes=None):
     nmax = max_modes or (5 if tier == "quick" else 6)
     n = rng.randint(2, nmax)
     if rng.random() < 0.6:
-        circ = dict(kind="unitary", n=n, useed=rng.randint(0, 10 ** 6))
+        circ = dict(kind="unitary", n=n, useed=gseed(rng))
     else:
         ops = []
         for _ in range(rng.randint(1, 2 * n)):
@@ -636,11 +672,11 @@ class C07:
             for pdk in (0, 0.5, 1.0):
                 for pc in (True, False):
                     add(dict(kind="getout", det=dict(eff=eff, pdark=pdk, pc=pc), state=states[k % len(states)],
-                             reps=20, seed=rng.randint(0, 10 ** 6)))
+                             reps=20, seed=gseed(rng)))
                     k += 1
         for _ in range(40 if q else 600):
             st = [rng.choice([0, 0, 1, 1, 2, 3]) for _ in range(rng.randint(1, 6))]
-            add(dict(kind="getout", det=g_det(rng), state=st, reps=rng.choice([1, 10, 40]), seed=rng.randint(0, 10 ** 6)))
+            add(dict(kind="getout", det=g_det(rng), state=st, reps=rng.choice([1, 10, 40]), seed=gseed(rng)))
 
         # -- sample_N_inputs
         for i in range(70 if q else 1500):
@@ -649,7 +685,7 @@ class C07:
                 nm = len(cfg["input"])
                 ph = sum(cfg["input"])
                 c = dict(kind="n_inputs", **cfg, det=g_det(rng), psel=None, mind=0,
-                         N=rng.choice([0, 1, 7, nd, nd, nd]), seed=rng.randint(0, 10 ** 6))
+                         N=rng.choice([0, 1, 7, nd, nd, nd]), seed=gseed(rng))
                 c["psel"] = g_psel_sat(rng, c, nm)
                 c["mind"] = g_mind(rng, c)
                 return c
@@ -663,7 +699,7 @@ class C07:
                 ph = sum(cfg["input"])
                 det = g_det(rng, "nodark") if rng.random() < 0.9 else g_det(rng)
                 c = dict(kind="n_outputs", **cfg, det=det, psel=None, mind=0,
-                         N=rng.choice([0, 1, 7, nd, nd, nd]), seed=rng.randint(0, 10 ** 6))
+                         N=rng.choice([0, 1, 7, nd, nd, nd]), seed=gseed(rng))
                 c["psel"] = g_psel_sat(rng, c, nm)
                 c["mind"] = g_mind(rng, c)
                 return c
@@ -676,13 +712,13 @@ class C07:
                 inp = [0] * (n - 1)
                 for _ in range(2):
                     inp[rng.randrange(n - 1)] += 1
-                cfg = dict(circ=dict(kind="unitary", n=n, useed=rng.randint(0, 10 ** 6)),
+                cfg = dict(circ=dict(kind="unitary", n=n, useed=gseed(rng)),
                            heralds=[[1, rng.randrange(n), rng.randrange(n)]], input=inp)
                 kind = "n_outputs" if i % 2 == 0 else "n_inputs"
                 det = dict(eff=1.0, pdark=0.0, pc=False) if kind == "n_outputs" else dict(
                     eff=rng.choice([1, 0.9, 0.5]), pdark=rng.choice([0, 0.1]), pc=False)
                 c = dict(kind=kind, **cfg, det=det, psel=None, mind=rng.choice([0, 1, 1, 2]),
-                         N=nd, seed=rng.randint(0, 10 ** 6))
+                         N=nd, seed=gseed(rng))
                 if rng.random() < 0.4:
                     c["psel"] = g_psel_sat(rng, c, n - 1)
                 return c
@@ -694,7 +730,7 @@ class C07:
                 cfg = g_cfg(rng, tier, heralds=rng.choice([0, 0, 0, 1, 2]), lossy=rng.random() < 0.2,
                             source=rng.random() < 0.3)
                 return dict(kind="sample", **cfg, det=g_det(rng), M=rng.choice([1, 20, nd // 2]),
-                            seed=rng.randint(0, 10 ** 6))
+                            seed=gseed(rng))
             add(self._try(mk))
 
         # -- QuickSampler
@@ -704,7 +740,7 @@ class C07:
                 nm = len(cfg["input"])
                 kind = "qs_sample" if i % 2 else "qs_n_outputs"
                 c = dict(kind=kind, **cfg, pc=rng.random() < 0.6, psel=g_psel(rng, nm, state_attr=False),
-                         seed=rng.randint(0, 10 ** 6))
+                         seed=gseed(rng))
                 c["M" if kind == "qs_sample" else "N"] = rng.choice([0, 1, 30, nd]) if kind != "qs_sample" else rng.choice([1, 30, nd // 2])
                 return c
             add(self._try(mk))
